@@ -395,8 +395,8 @@ func c15Run(j vs.Job) *vs.JobResult {
 					if rs == 1 && j.Tier != "thorough" {
 						continue
 					}
-					reads := 0 // learnt from the run with when = 0
-					for when := 0; when <= reads; when++ {
+					reads := 0                              // learnt from the run with when = 0
+					for when := -1; when <= reads; when++ { // -1: after the scan, before the reader (and its announced size) exists
 						src := fresh()
 						must(os.MkdirAll(filepath.Join(src, "r", "d"), 0o755))
 						names := []string{filepath.Join(src, "r", "a.bin"), filepath.Join(src, "r", "d", "b.bin"), filepath.Join(src, "r", "z.bin")}
@@ -407,8 +407,6 @@ func c15Run(j vs.Job) *vs.JobResult {
 						t := newTransfer(io.Discard, nil, false, nil)
 						t.transferConfig.Protocol = kProtocolVersion4
 						top := t.archiveSourceFiles(files)[0]
-						rd, err := t.newArchiveReader(top)
-						must(err)
 						mutate := func() {
 							switch change {
 							case "shrink":
@@ -421,6 +419,11 @@ func c15Run(j vs.Job) *vs.JobResult {
 								f.Close()
 							}
 						}
+						if when == -1 {
+							mutate()
+						}
+						rd, err := t.newArchiveReader(top)
+						must(err)
 						var stream []byte
 						buf := make([]byte, rs)
 						var rerr error
@@ -463,6 +466,10 @@ func c15Run(j vs.Job) *vs.JobResult {
 							return ""
 						}
 						if strings.HasPrefix(change, "shrink") {
+							if rerr != nil && int64(len(stream)) >= rd.getSize() {
+								// the product's read stage stops once it has the announced number of bytes
+								r.Violate("c15:shrink-late", fmt.Sprintf("file #%d %s after read %d (read size %d): the error %q only shows after all %d announced bytes were produced; a reader that stops at the announced size never sees it", which, change, when, rs, rerr, rd.getSize()), nil)
+							}
 							if rerr == nil {
 								// no error: only right when the file had been read completely before it shrank — the stream
 								// is then complete and every entry in place
@@ -485,6 +492,8 @@ func c15Run(j vs.Job) *vs.JobResult {
 									r.Violate("c15:shrink-silent", fmt.Sprintf("file #%d %s %s (after read %d, read size %d): the producer reported no error (%s)", which, change, moment, when, rs, bad), nil)
 								}
 							}
+						} else if rerr == nil && int64(len(stream)) != rd.getSize() {
+							r.Violate("c15:grow-size", fmt.Sprintf("file #%d grew after read %d (read size %d): the stream has %d bytes, %d were announced", which, when, rs, len(stream), rd.getSize()), nil)
 						} else if rerr != nil {
 							r.Violate("c15:grow-error", fmt.Sprintf("file #%d grew after read %d (read size %d): %v", which, when, rs, rerr), nil)
 						} else {
